@@ -176,6 +176,14 @@ def reconstruct_config(P, variant):
             return {}
         raise AnalysisError('get_config: cannot decode %s' % show(t)[:80])
     cfg = decode(e.value)
+    # mutable module-level tables that end up inside the returned configuration (the same object in every
+    # configuration ever handed out)
+    shared = []
+    vals = set(subterms(e.value))
+    for eff in e.state.effects:
+        if eff[0] == 'modref' and eff[2] in vals and eff[1] not in shared:
+            shared.append(eff[1])
+    info['shared'] = shared
     return cfg, info
 
 
@@ -231,6 +239,14 @@ def rule_config_keys(ctx, rid):
         if missing:
             ctx.violation(rid, gc, c, 'options %s of %s are absent from its default configuration, so they cannot '
                           'be addressed or persisted' % (missing, v), found=sorted(cfg))
+        else:
+            ctx.passed(rid, gc, c)
+        c = 'variant %s: containers of the default configuration are fresh objects' % v
+        if info.get('shared'):
+            ctx.violation(rid, gc, c, 'the module-level table(s) %s are stored in the returned configuration: every '
+                          'configuration shares them, so editing one configuration changes the defaults of all later '
+                          'ones' % ', '.join(info['shared']), expected='a new dict/list per call',
+                          found=', '.join(info['shared']))
         else:
             ctx.passed(rid, gc, c)
         # top-level values are the signature defaults
